@@ -38,6 +38,8 @@ import OxiddModel.Reorder.DriverStoreN
 import OxiddModel.Mtbdd.DriverF64Exact
 import OxiddModel.Bdd.DriverRcQ
 import OxiddModel.Ffi.DriverMulti
+import OxiddModel.Bcdd.DriverCountS
+import OxiddModel.Zbdd.DriverCountS
 
 open OxiddModel
 
@@ -94,7 +96,9 @@ def protos : List (String × Proto) := [
   ("reorder-store-mtbdd", OxiddModel.Reorder.SwapStoreN.Driver.protoMtbdd),
   ("f64arith", OxiddModel.Mtbdd.F64Exact.Driver.proto),
   ("bdd-rcq", OxiddModel.Bdd.DriverRcQ.proto),
-  ("capi-multi", OxiddModel.Ffi.Multi.proto)
+  ("capi-multi", OxiddModel.Ffi.Multi.proto),
+  ("countcache-bcdd", OxiddModel.Bcdd.CountS.Driver.proto),
+  ("countcache-zbdd", OxiddModel.Zbdd.CountS.Driver.proto)
 ]
 
 def main (args : List String) : IO UInt32 := do
